@@ -139,6 +139,7 @@ pub fn client(id: u32, user: &str, db: &str, password: &str, start_ms: u64, step
         auth: "correct".into(),
         ssl_probe: false,
         raw_startup: None,
+        tls: false,
         steps,
         patience_ms: 600_000,
         role: "worker".into(),
@@ -162,6 +163,7 @@ pub fn admin_client(id: u32, phase: &str, start: When, cmds: &[&str]) -> ClientS
         auth: "correct".into(),
         ssl_probe: false,
         raw_startup: None,
+        tls: false,
         steps,
         patience_ms: 600_000,
         role: "admin".into(),
